@@ -178,6 +178,15 @@ func init() {
 					s.Body.Data = s.Body.Data[:at]
 				}
 			}
+			if b.Client.form == wire.ConnectGet && c.Choose("get-announced-by-header", 2) == 1 {
+				// a Connect GET may say what it is with the Connect-Protocol-Version header instead of
+				// the connect=v1 query parameter; the message still travels in the query
+				call.SpecMut = func(s *drive.ReqSpec) {
+					s.Target = strings.Replace(strings.Replace(s.Target, "connect=v1&", "", 1), "&connect=v1", "", 1)
+					s.Header.Set("Connect-Protocol-Version", "1")
+				}
+				c.Attr("~get-form", "header")
+			}
 			// an informational (1xx) response before the real one must not change anything
 			info := 0
 			if cutKind == 0 {
